@@ -278,7 +278,10 @@ theorem step_doLocalWrite (fuel : Nat) (ih : MachineInv P fuel) :
   obtain ⟨_, _, _, _, _, _, i7, i8, _⟩ := ih
   simp only [doLocalWrite]
   split
-  · exact i8 _ _ h
+  · apply i8
+    rcases discDone_cases w which with ⟨e, _⟩ | ⟨e, _⟩ <;> rw [e]
+    · exact h
+    · simpa using hc.handleDisconnect _ h
   · split
     · rename_i w' heq; simp [io_write_sess' heq, h]
     · rename_i w' n heq; exact i7 _ _ _ (by simpa [io_write_sess' heq] using h)
